@@ -116,8 +116,8 @@ def run(chk):
                         "N": len(X), "C": C, "D": D, "starved": starve})
     bad, info = cq.run_cases("C05", gt.IMPORTS, "fit_case", "fit_check", terms, shard=60)
     chk.correspondence("GMMMachine.fit(trainer='map') ~ MF.fit (faithful or repaired variance blend)", len(terms), bad, info)
-    chk.partial = ["map_means_only_monotone (relevance-penalised likelihood never decreases with means-only adaptation): see evidence 'theorems'; "
-                   "if absent it is validated numerically only"]
+    chk.partial = ["C05_means_only_monotone is proved under 'every component has evidence (n_c >= threshold)'; a component in the no-evidence "
+                   "branch is reset to the prior mean, which can lower the penalised likelihood by O(threshold) - not covered by the theorem"]
     return chk.finish(
         rule="priors C<=3, D<=3 (shifted off the origin; every 5th with a starved component 1e4 sigma away), relevance None/1e-6..1e6, fixed alpha 0/0.3/0.5/1, "
              "all 8 switch settings, 1-3 iterations checked step by step against the stated blend; distinct = (switches, fixed-alpha?, starved?, no-evidence met?)",
